@@ -35,3 +35,27 @@ Example c02_example :
      [WWrite 1 [106; 10]; WFlushFail 1 true]; []] /\
   queue (fst (run ops)) = [[107]].
 Proof. vm_compute. split; reflexivity. Qed.
+
+From CRS Require Import Model.OpInput Proofs.OpInputProofs.
+(** The operator's side (Model/OpInput.v: Shell.Do's line reader waiting on a
+    full line channel, Ctrl+I inserts as goroutines of their own, the broker
+    taking lines; every interleaving, any channel capacity): the lines the
+    broker has taken are, in order, a prefix of the lines ReadLine returned,
+    which are a prefix of what the operator types; an inserted source arrives
+    as one whole item.  The reader that does not wait (it parks lines in
+    goroutines when the channel is full) is refuted: it permutes them. *)
+Theorem c02_operator_lines_in_order : forall cap lines es,
+  let s := irun cap lines es in exists rest, entered s = typed_of (taken s) ++ rest.
+Proof. exact taken_is_prefix_of_entered. Qed.
+Theorem c02_operator_entered_prefix : forall cap lines es,
+  let s := irun cap lines es in lines = entered s ++ to_type s.
+Proof. exact entered_prefix. Qed.
+Theorem c02_insert_whole : forall cap lines es,
+  let s := irun cap lines es in
+  let pressed := flat_map (fun e => match e with ICtrlI src => [src] | _ => [] end) es in
+  whole_inserts (taken s ++ chan s) pressed /\ (forall x, In x (inserts s) -> In x pressed).
+Proof. exact inserts_whole. Qed.
+Theorem c02_parking_reader_refuted :
+  let s := fold_left (inext2 1) reorder_run {| s2 := iinit [[1]; [2]; [3]]; parked := [] |} in
+  typed_of (taken (s2 s)) = [[1]; [3]; [2]].
+Proof. exact parking_reader_reorders. Qed.
